@@ -161,10 +161,11 @@ def check(ctx, rep):
     ok, why = _paths_write_nonzero_record(ctx, cl)
     rep.ob('terminator.always-written', '_close_record_buffer: data/ASCII files always end with a non-zero-length record', ok,
            'no terminating record %s: the reader runs on into the next file' % why, ctx.where(cl))
+    real = [x for x in cl.body if not (isinstance(x, ast.Expr) and isinstance(x.value, ast.Constant))]
+    wif = real[0] if real and isinstance(real[0], ast.If) else None
+    wreal = [x for x in (wif.body if wif else []) if not (isinstance(x, ast.Expr) and isinstance(x.value, ast.Constant))]
     rep.ob('terminator.flush-first', 'close flushes full records before writing the last one',
-           [norm(s) for s in cl.body[0].body][:1] == ['self._flush_record_buffer()'] if isinstance(cl.body[0], ast.If) or isinstance(cl.body[1], ast.If) else False, '', ctx.where(cl)) \
-        if isinstance(cl.body[0], ast.If) else rep.ob('terminator.flush-first', 'close flushes full records before writing the last one',
-                                                      isinstance(cl.body[1], ast.If) and norm(cl.body[1].body[0]) == 'self._flush_record_buffer()', '', ctx.where(cl))
+           bool(wreal) and norm(wreal[0]) == 'self._flush_record_buffer()', '', ctx.where(cl))
     # every record carries at least one block: the reader (and the skip path of the search, which reads one
     # block per record) cannot parse a leader followed directly by a trailer
     def nonempty(e, fn):
